@@ -202,7 +202,7 @@ hide!(hide_0_2_s1_lp0, 0, 2, 1, 0);
 hide!(hide_34_26_s3_lp2, 34, 26, 3, 2);
 //@ props=C11,C12 tier=thorough unwind=42 stubs=md5 uwset=message/avp.rs@(1..n_chunks).rev()=3 witness=revealed cap=1800
 hide!(hide_13_16_s3_lp0, 13, 16, 3, 0);
-//@ props=C11,C12 tier=thorough unwind=42 stubs=md5 uwset=message/avp.rs@(1..n_chunks).rev()=4 witness=revealed cap=1800
+//@ props=C11,C12 tier=thorough unwind=52 stubs=md5 uwset=message/avp.rs@(1..n_chunks).rev()=4 witness=revealed cap=1800
 hide!(hide_7_20_s3_lp12, 7, 20, 3, 12);
 //@ props=C11,C12 tier=thorough unwind=42 stubs=md5,utf8 uwset=message/avp.rs@(1..n_chunks).rev()=2 witness=revealed cap=1800
 hide!(hide_12_5_s3_lp1, 12, 5, 3, 1);
@@ -210,7 +210,7 @@ hide!(hide_12_5_s3_lp1, 12, 5, 3, 1);
 hide!(hide_39_0_s3_lp0, 39, 0, 3, 0);
 //@ props=C11,C12 tier=thorough unwind=42 stubs=md5 uwset=message/avp.rs@(1..n_chunks).rev()=2 witness=revealed cap=1800
 hide!(hide_5_8_s3_lp6, 5, 8, 3, 6);
-//@ props=C11,C12 tier=thorough unwind=42 stubs=md5 uwset=message/avp.rs@(1..n_chunks).rev()=4 witness=revealed cap=1800
+//@ props=C11,C12 tier=thorough unwind=52 stubs=md5 uwset=message/avp.rs@(1..n_chunks).rev()=4 witness=revealed cap=1800
 hide!(hide_7_30_s1_lp16, 7, 30, 1, 16);
 //@ props=C13,C12,C01 tier=quick unwind=42 stubs=md5,decode uwset=message/avp.rs@(1..n_chunks).rev()=1 witness=rejected cap=1800
 reveal!(reveal_0_s0, 0, 0);
